@@ -102,7 +102,7 @@ func c09Case(j *orch.Job, r *orch.Result) error {
 	mo.BurnProb = 0.9
 	gapsAbs := []uint32{}
 	_, meta, ref, err := ForgeChain(ForgeOpts{Profile: "c09", Seed: p.Seed, Eras: e, Upto: tip, ShortAvg: p.Window, Mixed: &mo, Dir: j.Dir, KeepDB: true,
-		PerHeight: true, Checkpoints: map[uint32]bool{warm: true},
+		PerHeight: true, PerHeightOnly: heightsFrom(warm, tip), Checkpoints: map[uint32]bool{warm: true},
 		Customize: func(m *gen.Mixed) {
 			for h := base + 1; h <= tip; h++ {
 				m.ForceGraded[h] = true
@@ -223,7 +223,11 @@ func checkC09(c *Ctx) *orch.Outcome {
 	var jobs []orch.Job
 	add := func(seed int64, gaps []int, rsets [][]int, window uint64, sp int) {
 		pj, _ := json.Marshal(c09Params{Seed: seed, Gaps: gaps, Restarts: rsets, Span: sp, Window: window})
-		jobs = append(jobs, orch.Job{Kind: "c09.case", Name: fmt.Sprintf("c09-%d-g%v-w%d", seed, gaps, window), Seed: seed, Params: pj, Timeout: 1500})
+		to := 1500
+		if window > 100 {
+			to = 7200 // ~650 busy blocks forged, then replayed from the warm-up checkpoint once per restart set
+		}
+		jobs = append(jobs, orch.Job{Kind: "c09.case", Name: fmt.Sprintf("c09-%d-g%v-w%d", seed, gaps, window), Seed: seed, Params: pj, Timeout: to})
 	}
 	if !c.Thorough() {
 		// 12 gap positions × 6 restart positions (stratified) + multi-gap / multi-restart cases
@@ -282,6 +286,15 @@ func checkC09(c *Ctx) *orch.Outcome {
 	o.Extra["chains"] = len(jobs)
 	o.MinNontrivial = 10
 	return o
+}
+
+// heightsFrom: the replays start from the checkpoint at the end of the warm-up, so only later heights are compared.
+func heightsFrom(lo, hi uint32) map[uint32]bool {
+	out := map[uint32]bool{}
+	for h := lo; h <= hi; h++ {
+		out[h] = true
+	}
+	return out
 }
 
 func everyBlock(span int) []int {
